@@ -17,6 +17,9 @@ C16 checker.  One case = one REAL serf node (serf.Create) in one configuration.
   `raceloop <name> <rounds>`  per round: NotifyJoin, then NotifyLeave and a leave intent from two goroutines
                           with nothing held; → `rounds <r> bad <b> first <kinds of the first bad round>`: a round is
                           bad when the kinds received for it are not an in-order part of join,failed,leave ending in leave
+  `prune <name>` / `forceprune <name>`  a leave intent with the Prune flag, gossiped (delegate.NotifyMsg) or
+                          local (Serf.RemoveFailedNodePrune): the member is erased; a failed member first
+                          becomes left → `emit leave/…,reap/…`; otherwise `emit reap/…` | `emit -` (unknown)
   `uev <name> <c|n> <id>` Serf.UserEvent                                       → `ok`
   `query <0|1> <id>`      Serf.Query (1 = internal `_serf_ping`)               → `ok`
   `pause` / `resume`      the application stops / resumes reading EventCh      → `ok`
@@ -194,6 +197,14 @@ def monitorStatuses (received : List MEv) (sts : List (String × String)) : Opti
   | some p => some ("status-mismatch", s!"member {hexOfString p.1} is {p.2} but the last event delivered for it says otherwise (or none was delivered)")
   | none => none
 
+/-- a member that is no longer in the member list (erased by a prune or the reaper): the last thing
+the application heard about it must be its reap -/
+def monitorGone (emitted received : List MEv) (sts : List (String × String)) : Option (String × String) :=
+  let gone := ((emitted.map (·.name)).eraseDups).filter (fun n => !(sts.any (fun p => p.1 == n)))
+  match gone.find? (fun n => lastKindM n received != some .reap) with
+  | some n => some ("reaped-mismatch", s!"member {hexOfString n} was erased from the member list, but the last event delivered for it is not its reap")
+  | none => none
+
 def recordEmit (s : St) (impl : String) : St × Option (String × String) :=
   if impl == "emit -" then (s, none)
   else if impl.startsWith "emit " then
@@ -284,6 +295,19 @@ def step (s : St) (op : List String) (impl : String) : LineOut St :=
       | some (.failed, ver) => memberOp { s with members := ainsert s.members name (.left, ver) } (some ⟨.leave, name, recV ver .left⟩)
       | some _ => memberOp s none
     | none => bad
+  | [pr, n] =>
+    if pr == "prune" || pr == "forceprune" then
+      match stringOfHex? n with
+      | some name =>
+        match alookup s.members name with
+        | none => memberOp { s with intents := name :: s.intents } none
+        | some (.failed, ver) =>
+          memberOp2 { s with members := aerase s.members name }
+            ⟨.leave, name, recV ver .left⟩ ⟨.reap, name, recV ver .left⟩
+        | some (.left, ver) => memberOp { s with members := aerase s.members name } (some ⟨.reap, name, recV ver .left⟩)
+        | some (_, ver) => memberOp { s with members := aerase s.members name } (some ⟨.reap, name, recV ver .leaving⟩)
+      | none => bad
+    else bad
   | ["burst", n, cnt, v0] =>
     match stringOfHex? n, cnt.toNat?, v0.toNat? with
     | some name, some k, some ver0 =>
@@ -333,7 +357,9 @@ def step (s : St) (op : List String) (impl : String) : LineOut St :=
     else if w == "end" then
       let mon := match parseStatuses impl with
         | none => some ("malformed", impl)
-        | some sts => if s.lossy || s.sinceWait != 0 then none else monitorStatuses s.received (sts.filter (fun p => !s.exempt.contains p.1))
+        | some sts => if s.lossy || s.sinceWait != 0 then none else (match monitorStatuses s.received (sts.filter (fun p => !s.exempt.contains p.1)) with
+            | some m => some m
+            | none => monitorGone (s.emitted.filter (fun e => !s.exempt.contains e.name)) s.received sts)
       { state := s, model := some (statusLine s.members), monitor := mon }
     else bad
   | _ => bad
